@@ -67,7 +67,9 @@ RULE = ("P: all dictionaries with 1..2 (thorough 3) entries over the value alpha
         "file-name determinism and pairwise injectivity over the scalar alphabet (incl. tiny floats, large floats a "
         "fine step / one ulp apart, ints beyond 2^53, narrow floats) and along the TYPE axis (confusable values as "
         "Python float / np.float64 / np.float32 / np.float16 where exact, Python vs numpy ints, and as the np.float64 "
-        "children of an unpacked float array or list, whose files must not overwrite each other). Non-trivial = the object holds "
+        "children of an unpacked float array or list, whose files must not overwrite each other) and independently of HISTORY (for every pair of objects equal by "
+        "value but different in dtype / container / scalar type: the name of each computed alone in a forked copy of "
+        "the process = its name after the other one, in both orders; distinct names -> both files loadable). Non-trivial = the object holds "
         "a value JSON has no native form for (numpy scalar/array, set), an unpack mark, or a result with >= 1 "
         "update; distinct = distinct (dictionary, unpack subset, child index) / (type, accumulate, history)")
 
@@ -1487,6 +1489,143 @@ def part_names_types(c, T):
                     shutil.rmtree(d, ignore_errors=True)
 
 
+def confusable_objects():
+    """groups of parameter values that are EQUAL BY VALUE but differ in dtype /
+    container / scalar type (label -> constructor; built anew wherever used)"""
+    rng = lambda: np.arange(60, 85, 5)                       # noqa: E731
+    return {
+        "range5": [("arr_i64", rng), ("arr_f64", lambda: rng().astype(float)),
+                   ("arr_f32", lambda: rng().astype(np.float32)), ("arr_i32", lambda: rng().astype(np.int32)),
+                   ("list_int", lambda: rng().tolist()), ("list_float", lambda: rng().astype(float).tolist())],
+        "short3": [("arr_i64", lambda: np.array([1, 2, 3])), ("arr_f64", lambda: np.array([1.0, 2.0, 3.0])),
+                   ("list_int", lambda: [1, 2, 3])],
+        "irregular": [("arr_i64", lambda: np.array([1, 2, 4, 8, 16])),
+                      ("arr_f64", lambda: np.array([1.0, 2.0, 4.0, 8.0, 16.0]))],
+        "scalar5": [("int", lambda: 5), ("float", lambda: 5.0), ("np.int64", lambda: np.int64(5)),
+                    ("np.float64", lambda: np.float64(5.0)), ("np.float32", lambda: np.float32(5.0))],
+    }
+
+
+def in_forked_child(fn):
+    """runs fn() in a forked child (its own copy of every process-wide state of
+    the library) and returns its picklable result, or ('child_failed', text)"""
+    r, w = os.pipe()
+    pid = os.fork()
+    if pid == 0:
+        code = 0
+        try:
+            os.close(r)
+            try:
+                out = ("ok", fn())
+            except BaseException as e:  # noqa
+                out = ("exc", "%s: %s" % (type(e).__name__, e),
+                       "library" if _origin(e) == "library" else "check")
+            with os.fdopen(w, "wb") as f:
+                pickle.dump(out, f)
+        except BaseException:  # noqa
+            code = 1
+        finally:
+            os._exit(code)
+    os.close(w)
+    with os.fdopen(r, "rb") as f:
+        data = f.read()
+    os.waitpid(pid, 0)
+    if not data:
+        raise Broken("forked child of part_names_history died without an answer")
+    return pickle.loads(data)
+
+
+def _names_and_files(group, labels, d):
+    """in this order: build each object, save it through the SAME template into
+    the directory d, then load every distinct file back"""
+    objs = dict(confusable_objects()[group])
+    out = []
+    written = {}
+    for k, lab in enumerate(labels):
+        from pyphysim.simulations.parameters import SimulationParameters
+        s = wrap_results(SimulationParameters.create({"a": objs[lab]()}), 1)
+        s.runned_reps = [k + 1]
+        first = s.get_filename_with_replaced_params(os.path.join(d, "res_{a}.json"))
+        name = s.save_to_file(os.path.join(d, "res_{a}.json"))
+        again = s.get_filename_with_replaced_params(os.path.join(d, "res_{a}.json"))
+        out.append((lab, os.path.basename(first), os.path.basename(name), os.path.basename(again)))
+        written[name] = (k, s)
+    loads = {}
+    for name, (k, s) in written.items():
+        back = type(s).load_from_file(name)
+        dd = diff(s, back)
+        loads[labels[k]] = None if (dd is None and back == s) else (dd[2] if dd else "== False")
+    return out, loads, sorted(f for f in os.listdir(d) if not f.endswith(".tmp"))
+
+
+def part_names_history(c, T):
+    """The file name is a function of the parameter VALUES of the object at
+    hand - not of what this process formatted before.  For every pair of
+    objects that are confusable by value (int vs float dtype, float32 vs
+    float64, list vs array, Python vs numpy scalar): the name of each, computed
+    alone in a fresh copy of the process, must be the name it gets after the
+    other one in either order; and where the two lone names differ, saving both
+    through the same template into one directory leaves two files, each
+    loading back equal to what was written."""
+    for group, members in confusable_objects().items():
+        labels = [lab for lab, _ in members]
+        lone = {}
+        for lab in labels:
+            d, _ = T.path("x")
+            try:
+                r = in_forked_child(lambda lab=lab, d=d: _names_and_files(group, [lab], d))
+            finally:
+                shutil.rmtree(d, ignore_errors=True)
+            case = {"part": "N", "what": "history", "group": group, "order": [lab]}
+            c.count("eval_file_names")
+            if r[0] != "ok":
+                if r[2] == "check":
+                    raise Broken("part_names_history: check code failed in the child: %s" % r[1])
+                c.fail(("file_name", "lone_computation", "exception"), case, observed=r[1])
+                continue
+            (lab_, first, name, again), loads, files = r[1][0][0], r[1][1], r[1][2]
+            if not (first == name == again) or loads[lab] is not None or files != [name]:
+                c.fail(("file_name", "lone_computation", "not_deterministic_or_not_loadable"), case,
+                       observed=(first, name, again, loads[lab], files))
+            lone[lab] = name
+            c.outcome("lone_names", (group, name))
+        for i in range(len(labels)):
+            for j in range(len(labels)):
+                if i == j or labels[i] not in lone or labels[j] not in lone:
+                    continue
+                order = [labels[i], labels[j]]
+                case = {"part": "N", "what": "history", "group": group, "order": order}
+                d, _ = T.path("x")
+                try:
+                    r = in_forked_child(lambda order=order, d=d: _names_and_files(group, order, d))
+                finally:
+                    shutil.rmtree(d, ignore_errors=True)
+                c.count("eval_file_name_orders")
+                c.nontriv(("N", "history", group, tuple(order)))
+                if r[0] != "ok":
+                    if r[2] == "check":
+                        raise Broken("part_names_history: check code failed in the child: %s" % r[1])
+                    c.fail(("file_name", "after_another_object", "exception"), case, observed=r[1])
+                    continue
+                rows, loads, files = r[1]
+                for lab, first, name, again in rows:
+                    if not (first == name == again == lone[lab]):
+                        c.fail(("file_name", "depends_on_what_was_formatted_before"), dict(case, object=lab),
+                               observed=(first, name, again), expected=lone[lab],
+                               msg="name of %s computed %s %s" % (lab, "after" if lab == order[1] else "before",
+                                                                  order[0] if lab == order[1] else order[1]))
+                distinct = lone[order[0]] != lone[order[1]]
+                c.outcome("confusable_pairs", (group, "distinct_names" if distinct else "same_name"))
+                if distinct:
+                    if len(files) != 2:
+                        c.fail(("file_name", "files_of_confusable_objects_overwrite_each_other"), case,
+                               observed=files, expected=sorted(lone[x] for x in order))
+                    for lab in order:
+                        if loads.get(lab, "not written") is not None:
+                            c.fail(("file_name", "file_of_confusable_object_not_what_was_written"),
+                                   dict(case, object=lab), observed=loads.get(lab, "not written"))
+
+
 def part_names(c):
     nums, strs = scalar_names_alphabet()
     for group, vals in (("numbers", nums), ("strings", strs)):
@@ -1586,6 +1725,8 @@ def main(chk: Check):
     top = make_tmpdir()
     try:
         with guard(chk, ("file_name",), {"part": "N"}):
+            # first of all: every forked child then starts from a process in which no name was formatted yet
+            part_names_history(chk, Targets(chk, tempfile.mkdtemp(prefix="nameshist-", dir=top)))
             part_names(chk)
             part_names_types(chk, Targets(chk, tempfile.mkdtemp(prefix="names-", dir=top)))
         with guard(chk, ("error_paths",), {"part": "E"}):
@@ -1626,6 +1767,8 @@ def main(chk: Check):
     chk.require_outcomes("invalid_call", 10)
     chk.require_outcomes("history_final_states", 20)
     chk.require_outcomes("typed_name_pairs", 6)
+    chk.require_outcomes("confusable_pairs", 5)
+    chk.require_outcomes("lone_names", 6)
 
 
 def replay(case, chk: Check):
@@ -1636,8 +1779,11 @@ def replay(case, chk: Check):
         if part == "probe":
             probe_choice(chk)
         elif part == "N":
-            part_names(chk)
-            part_names_types(chk, T)
+            if case.get("what") == "history":
+                part_names_history(chk, T)
+            else:
+                part_names(chk)
+                part_names_types(chk, T)
         elif part == "E":
             part_errors(chk, T)
         elif part == "H":
